@@ -70,9 +70,9 @@ def cases(tier, seed):
                     out.append(('exh4', which, a, b))
     else:
         # a seeded sample of depth-3 programs on top of the exhaustive depth <= 2
-        for i in range(64):
+        for i in range(256):
             out.append(('samp3', i))
-    nr = 240 if tier == 'quick' else 20000
+    nr = 800 if tier == 'quick' else 20000
     for i in range(nr):
         out.append(('rand', i))
     return out
